@@ -1,41 +1,52 @@
 #!/usr/bin/env python3
-"""Checker self-validation against the repository's own history: for every `fix:` commit of /repo,
-re-introduce the defect (reverse-apply the commit to a scratch copy is not needed: the patch is applied to
-/repo's working tree and undone straight afterwards) and require that the check of the property named in
-known_findings.json reports a violation. A reverse patch that no longer applies is reported as skipped."""
-import json, re, subprocess, sys, os
+"""Checker self-validation against the repository's own history: for every `fix:` commit of /repo recorded
+in known_findings.json, the commit is reversed on a scratch copy of /repo's source (rsync without .git into
+a fresh mktemp directory, removed straight afterwards — /repo itself is never touched) and the check of the
+property named in the entry must report a violation. A reverse patch that no longer applies is `skipped`."""
+import json, re, subprocess, sys, os, shutil, tempfile, concurrent.futures
 V = os.path.dirname(os.path.dirname(os.path.abspath(__file__)))
 k = json.load(open(os.path.join(V, 'known_findings.json')))
-dirty = subprocess.run('git -C /repo diff --quiet', shell=True).returncode != 0
-if dirty:
-    print('SKIP: /repo working tree is dirty'); sys.exit(0)
-os.makedirs('/tmp/tryverif', exist_ok=True)
-open('/tmp/tryverif/known_findings.json', 'w').write(json.dumps({"findings": k['findings'], "fixed": []}))
-ok = bad = skipped = 0
-results = []
+def sh(cmd, cwd=None):
+    p = subprocess.run(cmd, shell=True, cwd=cwd, capture_output=True, text=True)
+    return p.returncode, p.stdout + p.stderr
+def run(item):
+    prop, h = item
+    scratch = tempfile.mkdtemp(prefix='defracheck-fix-')
+    try:
+        src, vd = os.path.join(scratch, 'repo'), os.path.join(scratch, 'verif')
+        os.makedirs(vd)
+        json.dump({"findings": k['findings'], "fixed": []}, open(os.path.join(vd, 'known_findings.json'), 'w'))
+        if sh(f'git -C /repo show {h}')[0] != 0:
+            return prop, h, 'skipped: commit not found'
+        patch = os.path.join(scratch, 'rev.diff')
+        sh(f'git -C /repo diff {h} {h}~1 > {patch}')
+        sh(f'rsync -a --exclude .git /repo/ {src}/')
+        if sh(f'git apply --check {patch}', cwd=src)[0] != 0:
+            return prop, h, 'skipped: reverse patch no longer applies'
+        sh(f'git apply {patch}', cwd=src)
+        rc, o = sh(f'{V}/bin/defracheck -repo {src} -property {prop} -verif {vd}')
+        viol = [l for l in o.splitlines() if l.startswith('VIOLATION')]
+        if rc == 1 and viol and 'load-failed' not in o:
+            return prop, h, f'detected ({len(viol)} violation lines)'
+        if 'load-failed' in o:
+            return prop, h, 'skipped: the reversed tree no longer type-checks (later fixes build on this one)'
+        return prop, h, 'NOT DETECTED'
+    finally:
+        shutil.rmtree(scratch, ignore_errors=True)
+items = []
 for line in k['fixed']:
     m = re.match(r'fixed: property=(C\d+) ([0-9a-f]{7,})', line)
-    if not m:
-        continue
-    prop, h = m.group(1), m.group(2)
-    patch = f'/tmp/tryverif/rev_{h}.diff'
-    if subprocess.run(f'git -C /repo show {h} > /dev/null 2>&1', shell=True).returncode != 0:
-        skipped += 1; results.append((prop, h, 'skipped: commit not found')); continue
-    subprocess.run(f'git -C /repo diff {h} {h}~1 > {patch}', shell=True)
-    if subprocess.run(f'git -C /repo apply --check {patch}', shell=True, capture_output=True).returncode != 0:
-        skipped += 1; results.append((prop, h, 'skipped: reverse patch no longer applies')); continue
-    subprocess.run(f'git -C /repo apply {patch}', shell=True)
-    try:
-        p = subprocess.run(f'{V}/bin/defracheck -repo /repo -property {prop} -verif /tmp/tryverif', shell=True, capture_output=True, text=True)
-        viol = [l for l in p.stdout.splitlines() if l.startswith('VIOLATION')]
-        if p.returncode == 1 and viol:
-            ok += 1; results.append((prop, h, f'detected ({len(viol)} violation lines)'))
+    if m:
+        items.append((m.group(1), m.group(2)))
+ok = bad = skipped = 0
+with concurrent.futures.ThreadPoolExecutor(max_workers=4) as ex:
+    for prop, h, res in ex.map(run, items):
+        print(prop, h, res)
+        if res.startswith('detected'):
+            ok += 1
+        elif res.startswith('skipped'):
+            skipped += 1
         else:
-            bad += 1; results.append((prop, h, 'NOT DETECTED'))
-    finally:
-        subprocess.run('git -C /repo checkout -- .', shell=True)
-    os.remove(patch)
-for r in results:
-    print(*r)
+            bad += 1
 print(f'fix-reversal validation: detected={ok} not_detected={bad} skipped={skipped}')
 sys.exit(1 if bad else 0)
